@@ -113,13 +113,14 @@ VARIABLES W, hist
 vars == <<W, hist>>
 Init == W = [np |-> 2, ne |-> 0, funs |-> InitFuns] /\ hist = <<>>
 Room == W.np + 4 <= MaxP /\ W.ne + 4 <= MaxE /\ Len(hist) < MaxCalls
-CallOn(Wx, c) == CASE c.op = "oracle" -> OracleOp(Wx, c.f, Queries[c.q]).W
-                   [] c.op = "value"  -> ValueOp(Wx, c.f, Queries[c.q]).W
+\* gradient(x) / subgradient(x) are oracle(x) returning the first component; f(x) (__call__) is value(x)
+CallOn(Wx, c) == CASE c.op \in {"oracle", "gradient"} -> OracleOp(Wx, c.f, Queries[c.q]).W
+                   [] c.op \in {"value", "call"}  -> ValueOp(Wx, c.f, Queries[c.q]).W
                    [] c.op = "stat"   -> Stationary(Wx, c.f)
                    [] c.op = "fixed"  -> Fixed(Wx, c.f)
                    [] c.op = "prox"   -> Prox(Wx, c.f, Queries[c.q])
 Call(c) == CallOn(W, c)
-Calls == {[op |-> o, f |-> fid, q |-> qi] : o \in {"oracle", "value", "prox"}, fid \in 1..Len(InitFuns), qi \in 1..Len(Queries)}
+Calls == {[op |-> o, f |-> fid, q |-> qi] : o \in {"oracle", "value", "prox", "gradient", "call"}, fid \in 1..Len(InitFuns), qi \in 1..Len(Queries)}
          \cup {[op |-> o, f |-> fid, q |-> 0] : o \in {"stat", "fixed"}, fid \in 1..Len(InitFuns)}
 NextCalls == IF Sim THEN {RandomElement(Calls)} ELSE Calls
 Next == Room /\ \E c \in NextCalls : W' = Call(c) /\ hist' = Append(hist, c)
